@@ -1,5 +1,6 @@
 // C06: Map read/write round-trips every field and is byte-stable.
 #include "map_shape.h"
+#include "Stream/MemoryWriter.h"
 template class std::__cxx11::basic_string<char>;
 using namespace OP2Utility;
 static bool g_may_throw;
@@ -54,12 +55,10 @@ extern "C" void h_bytes_write_once(void) {
     Stream::MemoryReader r(in, s.total);
     Map m = Map::ReadMap(r);
     vf_assert(r.Position() == s.consumed, "reader consumes exactly the map and ignores trailing bytes");
-    Stream::DynamicMemoryWriter w1;
+    static uint8_t out[MAP_MAXLEN + 16];
+    Stream::MemoryWriter w1(out, sizeof out);       // fixed buffer: stays cheap even if a faulty writer makes the output length data dependent
     m.Write(w1);
-    vf_assert(w1.Length() == s.consumed, "written length equals the consumed length");
-    Stream::MemoryReader o1 = w1.GetReader();
-    static uint8_t out[MAP_MAXLEN];
-    o1.Read(out, s.consumed);
+    vf_assert(w1.Position() == s.consumed, "written length equals the consumed length");
     for (unsigned i = 0; i < MAP_MAXLEN; i++) {
       if (i >= s.consumed) break;
       if (i >= s.offSavedGame && i < s.offSavedGame + 4) continue;
@@ -128,14 +127,12 @@ extern "C" void h_object_bytes(void) {
   build_object(m, tag);
   g_may_throw = false;
   VF_TRY {
-    Stream::DynamicMemoryWriter w;
-    m.Write(w);
     static uint8_t ref[MAP_MAXLEN + 16], out[MAP_MAXLEN + 16];
+    Stream::MemoryWriter w(out, sizeof out);
+    m.Write(w);
     unsigned n = ref_encode_map(m, LG, ref);
-    vf_assert(w.Length() == n, "written length equals the reference encoding's");
-    Stream::MemoryReader r = w.GetReader();
-    r.Read(out, n);
-    vf_assert(memcmp(out, ref, n) == 0, "written bytes equal the independent encoding of the map's fields");
+    vf_assert(w.Position() == n, "written length equals the reference encoding's");
+    for (unsigned i = 0; i < MAP_MAXLEN + 16; i++) { if (i >= n) break; vf_assert(out[i] == ref[i], "written bytes equal the independent encoding of the map's fields"); }
     VF_WITNESS();
   } VF_CATCH
 }
